@@ -109,6 +109,11 @@ def is_vector(x):
     return isinstance(x, Vector)
 
 
+# set by a family whose first operand is a spacelike vector stored with a negative tau: results stored with tau are then
+# compared through the signed tau^2 and only t >= 0 is required of a representable result
+SIGNED_TAU = False
+
+
 def compare_results(R, name, got, ref, lib):
     """goals stating that two results of one operation denote the same value"""
     goals = []
@@ -126,7 +131,8 @@ def compare_results(R, name, got, ref, lib):
                 # got stores tau >= 0: it denotes the vector (x, y, z, sqrt(tau^2 + mag^2)); with the spatial
                 # parts equal and ref's t >= 0 (representability) this is tau^2 == t^2 - mag^2
                 tau = stg[3]
-                goals.append(("result.tau2", G.eq(tau * tau, cr[3] * cr[3] - cr[0] * cr[0] - cr[1] * cr[1] - cr[2] * cr[2])))
+                tt = lib.copysign(tau * tau, tau) if SIGNED_TAU else tau * tau
+                goals.append(("result.tau2", G.eq(tt, cr[3] * cr[3] - cr[0] * cr[0] - cr[1] * cr[1] - cr[2] * cr[2])))
                 goals.append(("result.t>=0", G.ge(cr[3], 0)))
                 continue
             goals.append((f"result.{nm}", G.eq(a, b)))
@@ -161,7 +167,8 @@ def assume_representable(R, lib, res_sigma, res_cart):
         R.assume((c[0] != 0) | (c[1] != 0))
     if len(system) > 2 and system[2] == "tau" and len(c) == 4:
         R.assume(c[3] >= 0)
-        R.assume(c[3] * c[3] - c[0] * c[0] - c[1] * c[1] - c[2] * c[2] >= 0)
+        if not SIGNED_TAU:
+            R.assume(c[3] * c[3] - c[0] * c[0] - c[1] * c[1] - c[2] * c[2] >= 0)
 
 
 def assume_representable_declared(R, lib, returns, res_cart, operands):
@@ -182,4 +189,5 @@ def assume_representable_declared(R, lib, returns, res_cart, operands):
         R.assume((c[0] != 0) | (c[1] != 0))
     if "tau" in names and len(c) == 4:
         R.assume(c[3] >= 0)
-        R.assume(c[3] * c[3] - c[0] * c[0] - c[1] * c[1] - c[2] * c[2] >= 0)
+        if not SIGNED_TAU:
+            R.assume(c[3] * c[3] - c[0] * c[0] - c[1] * c[1] - c[2] * c[2] >= 0)
